@@ -164,6 +164,7 @@ class ContractViolation(icontract.ViolationError):
 class _Ledger:
     failed = []
     evaluations = 0
+    ratios = {}     # inequality clause -> worst observed err/bound (1.0 = at the bound), passing or not
 
 
 def _run_clause(tag, fn, kwargs):
@@ -214,6 +215,11 @@ def evaluations():
 
 def reset_evaluations():
     _Ledger.evaluations = 0
+    _Ledger.ratios = {}
+
+
+def ratios():
+    return dict(_Ledger.ratios)
 
 
 def _short(exc, n=300):
@@ -224,6 +230,9 @@ def _short(exc, n=300):
 def within(err, bound, what):
     """(ok, message) for an inequality err <= bound; NaN counts as a violation."""
     ok = (err <= bound) and not math.isnan(err)
+    key = what.split(" (")[0]
+    ratio = float("inf") if (math.isnan(err) or bound <= 0.0 and err > 0.0) else (err / bound if bound > 0.0 else 0.0)
+    _Ledger.ratios[key] = max(_Ledger.ratios.get(key, 0.0), ratio)
     return ok, "%s = %.6e exceeds bound %.6e" % (what, err, bound)
 
 
